@@ -156,6 +156,8 @@ func runFunctions(w *World, specs *Specs, contracts map[string]*Contract, keys [
 		fn := w.Funcs[key]
 		if strings.HasPrefix(key, "grammar:") {
 			grammarOutcome(w, fo)
+		} else if strings.HasPrefix(key, "lockset:") {
+			locksetOutcome(w, fo)
 		} else if strings.HasPrefix(key, "bounded:") {
 			boundedOutcome(w, fo)
 		} else if strings.HasPrefix(key, "maprange:") {
@@ -394,9 +396,12 @@ func cmdCheck(args []string) int {
 	vd := verifDir()
 	seed := 0
 	fmt.Sscan(os.Getenv("VERIF_SEED"), &seed)
-	timeout := 10000
+	// obligations are locked only if they discharge within 10 s while the whole suite is being solved in parallel;
+	// a check gives each of them three times that (twelve times in the thorough tier), so that a loaded machine does
+	// not turn a slow proof into a false alarm
+	timeout := 30000
 	if *tier == "thorough" {
-		timeout = 60000
+		timeout = 120000
 		crossCheck = true
 	}
 	lock, err := readLock(vd + "/obligations.lock")
@@ -1127,4 +1132,171 @@ func boundedOutcome(w *World, fo *funcOutcome) {
 	fo.VC.Trusted = []string{"bounded stand-in for " + bs.Function + ": " + bs.Bound + " - inputs outside this enumeration are NOT covered; the oracle (" + bs.Oracle + ") is hand-written"}
 	fo.boundedFirst = first
 	fo.boundedCases = cases
+}
+
+type locksetSpec struct {
+	Mutex   string   `json:"mutex"`   // "<relpkg>.<var>"
+	Guards  []string `json:"guards"`  // package-level variables the mutex protects
+	Startup []string `json:"startup"` // functions documented as start-up / single-threaded API (exempt)
+	Why     string   `json:"why"`
+}
+
+// locksetOutcome: lock discipline by a syntactic scan. Every function that touches a guarded variable, directly or
+// through the functions it calls, takes the mutex; if it (transitively) writes one, it takes it EXCLUSIVELY
+// (Lock, not RLock). Functions on the start-up list are exempt (their callers are not: calling one counts as writing).
+func locksetOutcome(w *World, fo *funcOutcome) {
+	name := strings.TrimPrefix(fo.Key, "lockset:")
+	fo.VC = &VCResult{Key: fo.Key}
+	b, err := os.ReadFile(filepath.Join(verifDir(), "spec", "footprints", "lockset_"+name+".json"))
+	if err != nil {
+		fo.VC.Err = err
+		return
+	}
+	var ls locksetSpec
+	if err := json.Unmarshal(b, &ls); err != nil {
+		fo.VC.Err = err
+		return
+	}
+	glob := func(q string) *ssa.Global {
+		k := strings.LastIndex(q, ".")
+		if sp := w.SSAPkgs[modPath+"/"+q[:k]]; sp != nil {
+			g, _ := sp.Members[q[k+1:]].(*ssa.Global)
+			return g
+		}
+		return nil
+	}
+	mu := glob(ls.Mutex)
+	guards := map[*ssa.Global]bool{}
+	for _, q := range ls.Guards {
+		if g := glob(q); g != nil {
+			guards[g] = true
+		}
+	}
+	startup := map[string]bool{}
+	for _, f := range ls.Startup {
+		startup[f] = true
+	}
+	type info struct {
+		reads, writes, lock, rlock bool
+		calls                      []*ssa.Function
+	}
+	infos := map[*ssa.Function]*info{}
+	var scan func(fn *ssa.Function, in *info)
+	scan = func(fn *ssa.Function, in *info) {
+		for _, blk := range fn.Blocks {
+			for _, ins := range blk.Instrs {
+				for _, op := range ins.Operands(nil) {
+					if g, ok := (*op).(*ssa.Global); ok && guards[g] {
+						if st, isStore := ins.(*ssa.Store); isStore && st.Addr == g {
+							in.writes = true
+						} else {
+							in.reads = true
+						}
+					}
+				}
+				// a map update / delete through a loaded guarded map is a write
+				if mu2, ok := ins.(*ssa.MapUpdate); ok {
+					if ld, ok := mu2.Map.(*ssa.UnOp); ok {
+						if g, ok := ld.X.(*ssa.Global); ok && guards[g] {
+							in.writes = true
+						}
+					}
+				}
+				if ci, ok := ins.(ssa.CallInstruction); ok {
+					cc := ci.Common()
+					if callee, ok := cc.Value.(*ssa.Function); ok {
+						if callee.Pkg != nil && callee.Pkg.Pkg.Path() == "sync" && len(cc.Args) > 0 && cc.Args[0] == ssa.Value(mu) {
+							switch callee.Name() {
+							case "Lock":
+								in.lock = true
+							case "RLock":
+								in.rlock = true
+							}
+						} else {
+							in.calls = append(in.calls, callee)
+						}
+					}
+				}
+			}
+		}
+		for _, a := range fn.AnonFuncs {
+			scan(a, in)
+		}
+	}
+	for _, fn := range w.Funcs {
+		if fn.Parent() == nil {
+			in := &info{}
+			infos[fn] = in
+			scan(fn, in)
+		}
+	}
+	// transitive closure: does fn (or something it calls) read / write a guarded variable?
+	type rw struct{ r, w bool }
+	memo := map[*ssa.Function]*rw{}
+	var reach func(fn *ssa.Function, depth int) rw
+	reach = func(fn *ssa.Function, depth int) rw {
+		if m, ok := memo[fn]; ok {
+			return *m
+		}
+		m := &rw{}
+		memo[fn] = m
+		in := infos[fn]
+		if in == nil || depth > 12 {
+			return *m
+		}
+		m.r, m.w = in.reads, in.writes
+		for _, c := range in.calls {
+			x := reach(c, depth+1)
+			m.r = m.r || x.r
+			m.w = m.w || x.w
+		}
+		return *m
+	}
+	fo.Res = map[int]OblResult{}
+	addObl := func(name, descr string, ok bool) {
+		i := len(fo.VC.Obls)
+		fo.VC.Obls = append(fo.VC.Obls, &Obl{Name: name, Kind: "table", Offset: i, Func: fo.Key, Descr: descr})
+		st := "unsat"
+		if !ok {
+			st = "sat"
+		}
+		fo.Res[i] = OblResult{Status: st, Solver: "ssa-scan"}
+	}
+	var offenders []string
+	touched := 0
+	for fn, in := range infos {
+		key := funcKey(fn)
+		if startup[key] || (fn.Name() == "init" || strings.HasPrefix(fn.Name(), "init#")) {
+			continue
+		}
+		x := reach(fn, 0)
+		if !x.r && !x.w {
+			continue
+		}
+		// only functions that touch the variables themselves or call a start-up function directly have to hold the lock
+		direct := in.reads || in.writes
+		for _, c := range in.calls {
+			if startup[funcKey(c)] {
+				direct = true
+			}
+		}
+		if !direct {
+			continue
+		}
+		touched++
+		switch {
+		case x.w && !in.lock:
+			how := "takes no lock"
+			if in.rlock {
+				how = "takes only the shared lock (RLock)"
+			}
+			offenders = append(offenders, fmt.Sprintf("%s may write a guarded variable but %s", key, how))
+		case !x.w && !in.lock && !in.rlock:
+			offenders = append(offenders, fmt.Sprintf("%s reads a guarded variable without the lock", key))
+		}
+	}
+	sort.Strings(offenders)
+	addObl("lock-discipline", fmt.Sprintf("every function outside %v that touches %v holds %s, exclusively if it may write: %v (%s)", ls.Startup, ls.Guards, ls.Mutex, offenders, ls.Why), len(offenders) == 0 && mu != nil && len(guards) == len(ls.Guards))
+	addObl("scan-not-empty", fmt.Sprintf("%d functions touch the guarded variables", touched), touched > 0)
+	fo.VC.Trusted = []string{"lock discipline of " + ls.Mutex + ": syntactic go/ssa scan (a Lock call anywhere in the function counts as holding the lock for the whole function; calls through function values and interfaces are not followed); start-up functions " + fmt.Sprint(ls.Startup) + " are exempt"}
 }
